@@ -2402,14 +2402,10 @@ class Emitter:
         self.closure_ret_ty = UNKNOWN
         self.ctl = Ctl(lambda envx, t, ty: fin(envx, t, ty))
         try:
-<<<<<<< HEAD
-            body = self.expr(cl.body, env2, lambda t, ty, envx: fin(envx, t, ty))
-=======
             def fin_ty(t, ty, envx):
                 self.closure_ret = ty
-                return fin(envx, t)
+                return fin(envx, t, ty)
             body = self.expr(cl.body, env2, fin_ty)
->>>>>>> 7fe7b14a8fdc6b568909c60339af9bf83d93fe04
         finally:
             self.ctl = old
             self.pure_mode = oldpm
@@ -2619,9 +2615,6 @@ class Emitter:
     # function of closure_st; its type records the captured (assigned) variables
     def e_closure(self, e, env, k):
         ptys = [self.ty_of_ast(ty) if ty is not None else UNKNOWN for _p, ty in e.params]
-<<<<<<< HEAD
-        return self.closure_st(e, ptys, env, lambda fterm, cap, env1: k(fterm, ("closure", tuple(cap), tuple(ptys), getattr(self, "closure_ret_ty", UNKNOWN)), env1))
-=======
         # optional vocabulary key `closure_param_types: {fn: [types]}`: the types of closure parameters written without
         # a type annotation (`|c| ..`), by position
         given = self.v.get("closure_param_types", {}).get(self.cur_fn)
@@ -2630,15 +2623,19 @@ class Emitter:
         self.closure_ret = None
 
         def k1(fterm, cap, env1):
-            ty = ClosureTy(("closure", tuple(cap), tuple(ptys)))
-            ty.ret = self.closure_ret      # type of the body's value (for a call of the closure variable, call_closure)
+            # ("closure", captured, parameter types, result type); `.ret` = the result type again (call_closure)
+            ret = getattr(self, "closure_ret_ty", UNKNOWN)
+            if ret == UNKNOWN and self.closure_ret is not None:
+                ret = self.closure_ret
+            ty = ClosureTy(("closure", tuple(cap), tuple(ptys), ret))
+            ty.ret = self.closure_ret if self.closure_ret is not None else ret
             return k(fterm, ty, env1)
         return self.closure_st(e, ptys, env, k1)
 
     def call_closure(self, var, args, env, k):
         """`f(args)` where `f` is a local variable bound to a closure (e_closure): the state-passing function is applied
         to the arguments and the current values of the captured variables, which are rebound from its answer"""
-        _c, cap, ptys = var.ty
+        _c, cap, ptys = var.ty[:3]
         if len(args) != len(ptys):
             raise EmitError("closure %s called with %d arguments" % (var.coq, len(args)))
 
@@ -2656,7 +2653,6 @@ class Emitter:
             return "'(%s, %s) <- %s %s %s ;;\nlet %s := %s in\n%s" % (
                 st, r, var.coq, " ".join(ts), self.tuple_of([env1.get(n).coq for n in cap]), pat, st, rest)
         return self.exprs(args, env, k_args)
->>>>>>> 7fe7b14a8fdc6b568909c60339af9bf83d93fe04
 
     def e_while(self, e, env, k):
         return self.while_like(e.cond, e.body, env, k)
